@@ -584,24 +584,30 @@ func (s *shimSched) at(hook string) {
 			break
 		}
 	}
-	var until chan struct{}
+	var until []chan struct{}
 	if rule != nil {
-		until = s.ev(rule.Until)
+		for _, e := range strings.Split(rule.Until, "&") { // "x&y": both must have happened
+			until = append(until, s.ev(e))
+		}
 	}
 	s.mu.Unlock()
 	if rule == nil {
 		return
 	}
-	select {
-	case <-until:
-		s.mu.Lock()
-		s.released++
-		s.mu.Unlock()
-	case <-time.After(2 * time.Second):
-		s.mu.Lock()
-		s.timedOut++
-		s.mu.Unlock()
+	deadline := time.After(2 * time.Second)
+	for _, c := range until {
+		select {
+		case <-c:
+		case <-deadline:
+			s.mu.Lock()
+			s.timedOut++
+			s.mu.Unlock()
+			return
+		}
 	}
+	s.mu.Lock()
+	s.released++
+	s.mu.Unlock()
 }
 
 // summary reports whether every rule was hit and released by its event.
